@@ -190,3 +190,26 @@
   (forall ((n Node) (d Int)) (! (=> (and (ptree.wf n) (= d (ptree.dep n))) (= (ptree.value n) (ptree.dense (ptree.leaves n) d 0)))
      :pattern ((ptree.dense (ptree.leaves n) d 0))))
   :lemmas (dense_of_leaves))
+
+; removing the top power of two from both indices keeps the lower path
+(lemma samePath_low
+  (forall ((i Int) (j Int) (d Int)) (=> (and (> d 0) (ptree.samePath i j d)) (ptree.samePath i j (- d 1))))
+  :unfold ((ptree.samePath i j d)))
+(lemma samePath_sub
+  (forall ((i Int) (j Int) (k Int) (d Int) (a Int) (b Int))
+    (=> (and (<= d k) (<= 0 a) (<= 0 b) (or (= i a) (= i (+ a (bits.pow2 k)))) (or (= j b) (= j (+ b (bits.pow2 k)))) (ptree.samePath i j d))
+        (ptree.samePath a b d)))
+  :induct d :inst (i j k (- d 1) a b)
+  :unfold ((ptree.samePath i j d) (ptree.samePath a b d)) :lemmas (bit_add_pow2))
+; ---------------- facts used by the test-parameter generator (C08: emitted parameters are provable) ----------------
+; below 2^d the index is determined by its d low bits
+(lemma bit_top_val
+  (forall ((t Int) (k Int)) (=> (and (<= 0 k) (<= 0 t) (< t (* 2 (bits.pow2 k)))) (= (bits.bit t k) (ite (< t (bits.pow2 k)) 0 1))))
+  :lemmas (bit_lt_pow2 bit_top))
+(lemma samePath_eq
+  (forall ((i Int) (j Int) (d Int))
+    (=> (and (<= 0 d) (<= 0 i) (< i (bits.pow2 d)) (<= 0 j) (< j (bits.pow2 d)) (ptree.samePath i j d)) (= i j)))
+  :induct d
+  :inst ((ite (< i (bits.pow2 (- d 1))) i (- i (bits.pow2 (- d 1)))) (ite (< j (bits.pow2 (- d 1))) j (- j (bits.pow2 (- d 1)))) (- d 1))
+  :unfold ((ptree.samePath i j d) (bits.pow2 d))
+  :lemmas (bit_top_val samePath_sub pow2_pos))
